@@ -219,6 +219,9 @@ class Node:
         # application readiness is set by the read threads of connections
         # and recomputed by the connection thread
         self._ready_lock = threading.Lock()
+        # `stop` raises its flag under this lock and connections to peers are
+        # opened under it: none is opened once the node is stopping
+        self._stop_lock = threading.Lock()
         self._half_ready_connections: dict[str, PeerConnection] = {}
         self._started = False
         self._stopping = False
@@ -528,6 +531,12 @@ class Node:
 
     def _connect_to_peer(self, peer: Peer):
         """Establishes a connection to a known peer."""
+        with self._stop_lock:
+            if self._stopping:
+                return
+            self._open_peer_connection(peer)
+
+    def _open_peer_connection(self, peer: Peer):
         if peer.connection:
             self.logger.warning(
                 f"a connection to {peer.node_name} exists already")
@@ -1830,7 +1839,8 @@ class Node:
             raise RuntimeError("Node is already stopping")
 
         self.logger.info("stopping node")
-        self._stopping = True
+        with self._stop_lock:
+            self._stopping = True
 
         if force:
             self.logger.warning("forced close, sockets may not close cleanly")
